@@ -55,7 +55,8 @@ ASSUMPTIONS = ['SQLite 3 live through pony.orm.dbproviders.sqlite; statements ob
                'hook side effects are capped per operation (budget) so flush rounds stay far below the 50-round limit']
 SHARDS = {'quick': 4, 'thorough': 16}
 MIN_EVALS = {'quick': 2500, 'thorough': 20000}
-CLASS_FLOORS = {'before_effect': 0.10, 'after_effect': 0.08, 'twice_in_session': 0.10, 'obj_flush': 0.05,
+CLASS_FLOORS = {'inplace_edit': 0.10, 'inplace_edit_in_before_update': 0.03, 'inplace_edit_on_pending_update': 0.05,
+                'before_effect': 0.10, 'after_effect': 0.08, 'twice_in_session': 0.10, 'obj_flush': 0.05,
                 'obj_flush_unsaved_chain_2plus': 0.03, 'obj_flush_unsaved_chain_3plus': 0.01,
                 'rollback': 0.05, 'update_then_delete': 0.01, 'create_delete_unflushed': 0.02}
 
@@ -105,7 +106,24 @@ def scenarios():
             {'ops': [O('new_p', v=1), O('new_t', v=2), O('new_t', v=3), O('link', j=0), O('query', i=2), O('link', j=1, f=True),
                      O('set', i=0, v=2), O('query', i=1), O('unlink', f=True), O('set', i=1, v=3), O('query', i=0),
                      O('new_k', v=1), O('query', i=0), O('del', i=3)], 'end': 'commit'}]),
-    ] + chain_scenarios()
+    ] + chain_scenarios() + tracked_value_scenarios()
+
+
+def tracked_value_scenarios():
+    """in-place edits of the Json / array values by the program, alone and next to ordinary attribute changes of the same
+    object in one flush window, on new, loaded, already modified and already flushed objects (jedit j: 0 m['n']=v,
+    1 m['trail'] append, 2 arr.append; jassign: m (f=False) or arr (f=True) re-assigned)"""
+    return [
+        ('tracked_values_program', [
+            {'ops': [O('new_p', v=1, w=2), O('new_k', v=2, w=3), O('new_t', v=3), O('jedit', i=0, j=1, v=4),
+                     O('jedit', i=2, j=0, v=5)], 'end': 'commit'},
+            {'ops': [O('set', i=0, v=5), O('jedit', i=0, j=0, v=6), O('jedit', i=1, j=1, v=7), O('set', i=1, v=8), O('flush'),
+                     O('jedit', i=0, j=2, v=9), O('jedit', i=0, j=1, v=1), O('oflush', i=0), O('set', i=2, v=2),
+                     O('jedit', i=2, j=2, v=3), O('jassign', i=1, v=4), O('jedit', i=1, j=0, v=5), O('commit'),
+                     O('jassign', i=0, v=6, w=7, f=True), O('jedit', i=0, j=2, v=8), O('set', i=0, attr='b', v=1)],
+             'end': 'commit'},
+            {'ops': [O('jedit', i=1, j=0, v=1), O('rollback'), O('set', i=1, v=2), O('jedit', i=1, j=1, v=3)], 'end': 'commit'}]),
+    ]
 
 
 def chain_scenarios():
@@ -142,6 +160,8 @@ def empty_hooks():
 
 def _arg_values(body, tier):
     # create: arg % 3 chooses T / K / P, (arg // 3) % 2 chooses T with an owner link / subclass K2; mod_other: index of the target
+    # mod_json: arg % 4 = m['n']=v / m['trail'] append / arr.append / m re-assigned; (arg // 4) % 2 = on self / on another object
+    if body == 'mod_json': return (0, 1, 2, 3, 5) if tier == 'quick' else (0, 1, 2, 3, 4, 5, 6, 14)
     if body not in ('mod_other', 'create'): return (0,)
     return (0, 1, 2, 3) if tier == 'quick' else (0, 1, 2, 3, 4, 7)
 
@@ -151,9 +171,11 @@ def level_tables():
     out = []
     for name, before, after in (('edit', 'mod_self', 'nothing'), ('edit+read', 'mod_self', 'read'),
                                 ('edit+edit', 'mod_self', 'mod_self'), ('read+edit', 'read', 'mod_self'),
-                                ('other+read', 'mod_other', 'readcoll'), ('create+edit', 'create', 'mod_self')):
+                                ('other+read', 'mod_other', 'readcoll'), ('create+edit', 'create', 'mod_self'),
+                                ('inplace', 'mod_json', 'nothing'), ('inplace+inplace', 'mod_json', 'mod_json'),
+                                ('inplace+read', 'mod_json', 'read'), ('edit+inplace', 'mod_self', 'mod_json')):
         for arg in (0, 1, 2, 5):
-            if arg and 'create' not in (before, after) and 'mod_other' not in (before, after): continue
+            if arg and not set((before, after)) & set(('create', 'mod_other', 'mod_json')): continue
             t = empty_hooks()
             for c in H.CLASSES:
                 for h in H.HOOKS[:3]: t[c][h] = [before, arg]
@@ -203,8 +225,8 @@ def grid_cases(tier):
 # ------------------------------------------------------------------------------------------------
 OP_KINDS = (['new_p'] * 2 + ['new_t'] + ['new_k'] * 3 + ['set'] * 6 + ['same'] + ['setkw'] + ['move'] + ['alt'] +
             ['alts_add'] + ['alts_remove'] + ['link'] * 2 + ['unlink'] + ['del'] * 3 + ['flush'] * 3 + ['oflush'] * 3 + ['up'] +
-            ['query'] * 2 + ['commit'] * 2 + ['rollback'])
-BODY_WEIGHTED = ['nothing'] * 3 + ['read', 'readcoll'] + ['mod_self'] * 2 + ['mod_other'] * 2 + ['create'] * 2
+            ['query'] * 2 + ['commit'] * 2 + ['rollback'] + ['jedit'] * 3 + ['jassign'])
+BODY_WEIGHTED = ['nothing'] * 3 + ['read', 'readcoll'] + ['mod_self'] * 2 + ['mod_other'] * 2 + ['create'] * 2 + ['mod_json'] * 3
 
 
 def case_strategy(tier):
@@ -246,7 +268,7 @@ def chain_case_strategy(tier):
                        st.builds(lambda i, j: O('up', i=i, j=j), st.sampled_from([-1, -2]), st.integers(-2, 2)))
     oflush = st.builds(lambda i, attr: O('oflush', i=i, attr=attr), st.sampled_from([-1, -1, -2, 0]), st.sampled_from(['c', 'c', 'b', 'a']))
     tail_op = st.fixed_dictionaries({
-        'k': st.sampled_from(['set', 'set', 'oflush', 'oflush', 'flush', 'new_p', 'new_k', 'del', 'query', 'commit', 'up', 'move']),
+        'k': st.sampled_from(['set', 'set', 'oflush', 'oflush', 'flush', 'new_p', 'new_k', 'del', 'query', 'commit', 'up', 'move', 'jedit']),
         'i': st.integers(-2, 5), 'j': st.integers(-2, 3), 'attr': st.sampled_from(['a', 'b', 'h', 'c']), 'v': val,
         'w': st.one_of(st.none(), val), 'f': st.booleans()})
     chain = st.builds(lambda ps, ks, rw, fl, tail: ps + ks + rw + [fl] + tail,
@@ -310,7 +332,7 @@ def run(ctx):
 
     def t(case):
         evaluate(ctx, case, 'random')
-    ctx.run_test(t, {'case': case_strategy(ctx.tier)}, max_examples=ctx.scale(350, 1800), name='random_histories')
+    ctx.run_test(t, {'case': case_strategy(ctx.tier)}, max_examples=ctx.scale(350, 1500), name='random_histories')
     if ctx.violation is not None:
         return
 
